@@ -65,6 +65,8 @@ type SPCfg struct {
 	CertWrap            bool     `json:"certWrap,omitempty"`
 	EncKey              int      `json:"encKey,omitempty"`   // 0 = none; otherwise fixture index of a second KeyDescriptor with use="encryption"
 	EncFirst            bool     `json:"encFirst,omitempty"` // the encryption KeyDescriptor precedes the signing one
+	DecoyNS             bool     `json:"decoyNS,omitempty"`  // elements of a foreign namespace named AssertionConsumerService / SingleLogoutService precede the real ones
+	ValidUntil          string   `json:"validUntil,omitempty"` // validUntil attribute of the SP's EntityDescriptor (a literal instant)
 	AuthnRequestsSigned string   `json:"authnRequestsSigned,omitempty"` // "" = attribute absent
 	ACS                 []ACSCfg `json:"acs"`
 	SLO                 []SLOCfg `json:"slo,omitempty"`
